@@ -256,6 +256,10 @@ def _register_factory():
 
 
 def replay(data: dict[str, Any]) -> tuple[bool, str]:
+    if "decisions" in data:
+        from . import c09
+
+        return c09.replay_bridge(data)
     from avocado_i2n.cartgraph.graph import TestGraph
     from avocado_i2n.cartgraph.node import EdgeRegister
 
@@ -327,6 +331,21 @@ def run(ctx: common.Context) -> None:
                 ctx.report(fp, what, detail, replay)
         if name == "prefix_tree" and counters.get("nonempty", 0) == 0:
             ctx.note_inconclusive("vacuous: no lookup returned a node")
+    # visit counters are shared among equivalent tests of different workers: the bridging protocol on real nodes
+    from . import c09
+
+    c09._bridge["N"], c09._bridge["regs"] = 3, 2
+    exhausted, stats, collected, err = symx.explore_parallel(c09._bridge_factory, seed=ctx.seed, split_depth=3, deadline=ctx.deadline(60, 300), min_tasks=8)
+    ctx.add_stats(stats)
+    counters = common.merge_collected(ctx, collected)
+    ctx.part("shared registers of bridged copies", exhausted=exhausted, paths=stats.paths, counters=counters, bounds={"copies": 3, "visits": 2, "protocols": ["arrival order (parsing)", "all pairs (update tool)"]})
+    if err:
+        ctx.note_inconclusive(err)
+    if not exhausted:
+        ctx.exhaustive = False
+    for c in collected:
+        for what, cls, detail in c.violations:
+            ctx.report(cls.replace("C09", "C16"), what, detail, c09.replay_bridge)
     ctx.coverage["explanation"] = (
         "symbolic execution of the real PrefixTree/EdgeRegister on atom-valued names; per path the concrete result is "
         "compared with a z3 formula of the specification by validity queries (unsat of the negation) - valid for an unbounded alphabet within the size bounds"
